@@ -1,12 +1,32 @@
 /-
   CIE family: Xyz, Yxy, Lab, Lch, Luv, Lchuv, Hsluv, Lms — every hand-written `FromColorUnclamped` edge,
-  expression for expression.  Component order = struct field order.
+  expression for expression.  Component order = struct field order:
+  `Lab = (l, a, b)`, `Lch = (l, chroma, hue)`, `Luv = (l, u, v)`, `Lchuv = (l, chroma, hue)`, `Hsluv = (hue, saturation, l)`,
+  `Lms = (long, medium, short)`, `Yxy = (x, y, luma)`.  Hues are the stored raw degrees.
 -/
 import PaletteModel.Color.Basic
+import PaletteModel.Color.Angle
+
+/-- `luv_bounds.rs` works in `f64` whatever the component type is: `l.into()`, `hue.into_raw_radians().into()` on the way in,
+    `T::from_f64(min_chroma)` on the way out.  `β` is the type that computation runs in (`Float` for `Float32` and `Float`,
+    `ℝ` for `ℝ`). -/
+class ViaF64 (α : Type) (β : outParam Type) where
+  /-- `Into<f64>` -/
+  up : α → β
+  /-- `T::from_f64` -/
+  down : β → α
+
+instance : ViaF64 Float Float := ⟨id, id⟩
+instance : ViaF64 Float32 Float := ⟨Float32.toFloat, Float.toFloat32⟩
 
 namespace Cie
 open Scalar
 variable {α : Type} [Scalar α]
+
+/-- `Powi::powi(self, 3)` for `f32`/`f64` (`llvm.powi`, expanded to two multiplications; `x*(x*x)` and `(x*x)*x` are the same float) -/
+def cube (x : α) : α := x * x * x
+/-- `Recip::recip` = `1 / self` -/
+def recip (x : α) : α := 1.0 / x
 
 /-- `impl FromColorUnclamped<Xyz<Wp,T>> for Yxy<Wp,T>` (yxy.rs) — result `(x, y, luma)` -/
 def xyzToYxy (c : V3 α) : V3 α :=
@@ -18,5 +38,158 @@ def yxyToXyz (c : V3 α) : V3 α :=
   let x := c.c0; let y := c.c1; let luma := c.c2
   if isValidDivisor y then ⟨x / y * luma, 1.0 * luma, (1.0 - x - y) / y * luma⟩
   else ⟨0.0 * luma, 1.0 * luma, 0.0 * luma⟩
+
+/-! ### Xyz ↔ Lab -/
+
+/-- the closure `convert` of `impl FromColorUnclamped<Xyz> for Lab` (lab.rs) -/
+def labF (c : α) : α :=
+  let epsilon : α := cube (const (6.0 / 29.0))
+  let kappa : α := const (841.0 / 108.0)
+  let delta : α := const (4.0 / 29.0)
+  if epsilon < c then cbrt c else kappa * c + delta
+
+/-- `impl FromColorUnclamped<Xyz<Wp,T>> for Lab<Wp,T>` (lab.rs); `wp = Wp::get_xyz()` -/
+def xyzToLab (wp : V3 α) (c : V3 α) : V3 α :=
+  let x := labF (c.c0 / wp.c0)
+  let y := labF (c.c1 / wp.c1)
+  let z := labF (c.c2 / wp.c2)
+  ⟨y * 116.0 - 16.0, (x - y) * 500.0, (y - z) * 200.0⟩
+
+/-- the closure `convert` of `impl FromColorUnclamped<Lab> for Xyz` (xyz.rs) -/
+def labFInv (c : α) : α :=
+  let epsilon : α := const (6.0 / 29.0)
+  let kappa : α := const (108.0 / 841.0)
+  let delta : α := const (4.0 / 29.0)
+  if epsilon < c then cube c else (c - delta) * kappa
+
+/-- `impl FromColorUnclamped<Lab<Wp,T>> for Xyz<Wp,T>` (xyz.rs) -/
+def labToXyz (wp : V3 α) (c : V3 α) : V3 α :=
+  let y := (c.c0 + 16.0) * recip 116.0
+  let x := y + c.c1 * recip 500.0
+  let z := y - c.c2 * recip 200.0
+  ⟨labFInv x * wp.c0, labFInv y * wp.c1, labFInv z * wp.c2⟩
+
+/-! ### cartesian ↔ polar (hues.rs) -/
+variable [Angle α]
+
+/-- `LabHue::from_cartesian(a, b)` / `LuvHue::from_cartesian(u, v)`: `from_radians(π + atan2(−b, −a))`, stored in degrees -/
+def hueFromCartesian (a b : α) : α := Angle.radToDeg (Angle.pi + atan2 (-b) (-a))
+
+/-- `impl FromColorUnclamped<Lab<Wp,T>> for Lch<Wp,T>` (lch.rs) — `(l, chroma, hue)` -/
+def labToLch (c : V3 α) : V3 α := ⟨c.c0, Angle.hypot c.c1 c.c2, hueFromCartesian c.c1 c.c2⟩
+
+/-- `impl FromColorUnclamped<Lch<Wp,T>> for Lab<Wp,T>` (lab.rs): `(a, b) = hue.into_cartesian()` = `(cos, sin)` of the raw radians -/
+def lchToLab (c : V3 α) : V3 α :=
+  let r := Angle.degToRad c.c2
+  let a := cos r; let b := sin r
+  let chroma := Scalar.max c.c1 0.0
+  ⟨c.c0, a * chroma, b * chroma⟩
+
+/-- `impl FromColorUnclamped<Luv<Wp,T>> for Lchuv<Wp,T>` (lchuv.rs) -/
+def luvToLchuv (c : V3 α) : V3 α := ⟨c.c0, Angle.hypot c.c1 c.c2, hueFromCartesian c.c1 c.c2⟩
+
+/-- `impl FromColorUnclamped<Lchuv<Wp,T>> for Luv<Wp,T>` (luv.rs): `Luv::new(l, chroma * cos, chroma * sin)` -/
+def lchuvToLuv (c : V3 α) : V3 α :=
+  let r := Angle.degToRad c.c2
+  let sinHue := sin r; let cosHue := cos r
+  let chroma := Scalar.max c.c1 0.0
+  ⟨c.c0, chroma * cosHue, chroma * sinHue⟩
+
+/-! ### Xyz ↔ Luv -/
+
+/-- `impl FromColorUnclamped<Xyz<Wp,T>> for Luv<Wp,T>` (luv.rs) -/
+def xyzToLuv (w : V3 α) (c : V3 α) : V3 α :=
+  let kappa : α := cube (const (29.0 / 3.0))
+  let epsilon : α := cube (const (6.0 / 29.0))
+  let primeDenom := c.c0 + 15.0 * c.c1 + 3.0 * c.c2
+  if eqv primeDenom 0.0 then ⟨0.0, 0.0, 0.0⟩ else
+  let primeDenomRecip := recip primeDenom
+  let primeRefDenomRecip := recip (w.c0 + 15.0 * w.c1 + 3.0 * w.c2)
+  let uPrime := 4.0 * c.c0 * primeDenomRecip
+  let uRefPrime := 4.0 * w.c0 * primeRefDenomRecip
+  let vPrime := 9.0 * c.c1 * primeDenomRecip
+  let vRefPrime := 9.0 * w.c1 * primeRefDenomRecip
+  let yR := c.c1 / w.c1
+  let l := if epsilon < yR then 116.0 * powf yR (const (1.0 / 3.0)) - 16.0 else kappa * yR
+  ⟨l, 13.0 * l * (uPrime - uRefPrime), 13.0 * l * (vPrime - vRefPrime)⟩
+
+/-- `impl FromColorUnclamped<Luv<Wp,T>> for Xyz<Wp,T>` (xyz.rs) -/
+def luvToXyz (w : V3 α) (c : V3 α) : V3 α :=
+  let kappa : α := cube (const (29.0 / 3.0))
+  let refDenomRecip := recip (w.c0 + 15.0 * w.c1 + 3.0 * w.c2)
+  let uRef := 4.0 * w.c0 * refDenomRecip
+  let vRef := 9.0 * w.c1 * refDenomRecip
+  if c.c0 < 1e-5 then ⟨0.0, 0.0, 0.0⟩ else
+  let y := (if 8.0 < c.c0 then cube ((c.c0 + 16.0) * recip 116.0) else c.c0 * recip kappa) * w.c1
+  let uPrime := c.c1 / (13.0 * c.c0) + uRef
+  let vPrime := c.c2 / (13.0 * c.c0) + vRef
+  let x := y * 2.25 * uPrime / vPrime
+  let z := y * (3.0 - 0.75 * uPrime - 5.0 * vPrime) / vPrime
+  ⟨x, y, z⟩
+
+/-! ### HSLuv: `luv_bounds.rs` (always in `f64`, see `ViaF64`) -/
+
+structure BoundaryLine (β : Type) where
+  slope : β
+  intercept : β
+
+section bounds
+variable {β : Type} [Scalar β]
+
+/-- the closure `line` of `LuvBounds::from_lightness`; `m` = row `c` of `M` (`Gen.Mat.hsluvM`) -/
+def boundaryLine (m0 m1 m2 l sub2 t : β) : BoundaryLine β :=
+  let top1 := (284517.0 * m0 - 94839.0 * m2) * sub2
+  let top2 := (838422.0 * m2 + 769860.0 * m1 + 731718.0 * m0) * l * sub2 - 769860.0 * t * l
+  let bottom := (632260.0 * m2 - 126452.0 * m1) * sub2 + 126452.0 * t
+  ⟨top1 / bottom, top2 / bottom⟩
+
+/-- `LuvBounds::from_lightness` (constants `M`, `KAPPA`, `EPSILON` extracted into `Gen.Mat`) -/
+def luvBounds (l : β) : List (BoundaryLine β) :=
+  let sub1 := cube (l + 16.0) / 1560896.0
+  let sub2 := if (const Gen.Mat.hsluvEpsilon : β) < sub1 then sub1 else l / const Gen.Mat.hsluvKappa
+  let m : M3 β := M3.ofK Gen.Mat.hsluvM
+  [boundaryLine m.m0 m.m1 m.m2 l sub2 0.0, boundaryLine m.m0 m.m1 m.m2 l sub2 1.0,
+   boundaryLine m.m3 m.m4 m.m5 l sub2 0.0, boundaryLine m.m3 m.m4 m.m5 l sub2 1.0,
+   boundaryLine m.m6 m.m7 m.m8 l sub2 0.0, boundaryLine m.m6 m.m7 m.m8 l sub2 1.0]
+
+/-- one step of the loop of `max_chroma_at_hue` with `intersect_length_at_angle` inlined:
+    `denom = sin θ − slope·cos θ`; `Some(intercept/denom)` iff `|denom| > 1e-6`; kept iff `t ≥ 0 ∧ min > t` -/
+def chromaStep (theta : β) (minChroma : β) (b : BoundaryLine β) : β :=
+  let sinTheta := sin theta; let cosTheta := cos theta
+  let denom := sinTheta - b.slope * cosTheta
+  if 1.0e-6 < abs denom then
+    let t := b.intercept / denom
+    if 0.0 ≤ t ∧ t < minChroma then t else minChroma
+  else minChroma
+
+/-- `f64::MAX` -/
+def f64Max : β := 1.7976931348623157e308
+
+/-- `LuvBounds::from_lightness(l).max_chroma_at_hue(hue)` on the `f64` side (`theta` = raw radians) -/
+def maxChromaAtHue (l theta : β) : β := (luvBounds l).foldl (chromaStep theta) f64Max
+end bounds
+
+variable {β : Type} [Scalar β] [ViaF64 α β]
+
+/-- `LuvBounds::from_lightness(color.l).max_chroma_at_hue(color.hue)` as seen from `T` -/
+def maxChroma (l hue : α) : α := ViaF64.down (maxChromaAtHue (ViaF64.up l) (ViaF64.up (Angle.degToRad hue)))
+
+/-- `impl FromColorUnclamped<Lchuv<Wp,T>> for Hsluv<Wp,T>` (hsluv.rs) — `(hue, saturation, l)` from `(l, chroma, hue)` -/
+def lchuvToHsluv (c : V3 α) : V3 α :=
+  let mc := maxChroma c.c0 c.c2
+  ⟨c.c2, c.c1 / mc * 100.0, c.c0⟩
+
+/-- `impl FromColorUnclamped<Hsluv<Wp,T>> for Lchuv<Wp,T>` (lchuv.rs) — `(l, chroma, hue)` from `(hue, saturation, l)` -/
+def hsluvToLchuv (c : V3 α) : V3 α :=
+  let mc := maxChroma c.c2 c.c0
+  ⟨c.c2, c.c1 * mc * 0.01, c.c0⟩
+
+/-! ### Xyz ↔ Lms (lms/lms.rs, xyz.rs): `Matrix3::from_array(M::xyz_to_lms_matrix()).convert_once(val)` = `multiply_3x3_and_vec3` -/
+
+def coneMatrix? (name : String) : Option (List K × List K) :=
+  (Gen.Mat.coneMatrices.find? (·.1 == name)).map fun (_, a, b) => (a, b)
+
+def xyzToLms (toLms : List K) (c : V3 α) : V3 α := (M3.ofK toLms : M3 α).mulVec c
+def lmsToXyz (toXyz : List K) (c : V3 α) : V3 α := (M3.ofK toXyz : M3 α).mulVec c
 
 end Cie
